@@ -2045,6 +2045,15 @@ impl LineBuf {
 		let cursor_pos = self.cursor.get();
 		cursor_pos - start
 	}
+	/// The display column of the cursor: the cells taken by the characters of its line in front of it
+	/// (a CJK character or an emoji takes two). This is the column that j and k aim for.
+	pub fn cursor_display_col(&mut self) -> usize {
+		let start = self.start_of_line();
+		let cursor_pos = self.cursor.get();
+		self.slice(start..cursor_pos)
+			.map(|s| s.graphemes(true).map(|g| g.width()).sum())
+			.unwrap_or(cursor_pos - start)
+	}
 	pub fn index_col(&self, pos: usize) -> usize {
 		let pos_line = self.index_line_number(pos);
 		let (start, _) = self.line_bounds(pos_line).expect("Indexing a line that does not exist");
@@ -2361,7 +2370,7 @@ impl LineBuf {
 				let target_col = if let Some(col) = self.saved_col {
 					col
 				} else {
-					let col = self.cursor_col();
+					let col = self.cursor_display_col();
 					self.saved_col = Some(col);
 					col
 				};
@@ -2781,7 +2790,7 @@ impl LineBuf {
 				let target_col = if let Some(col) = self.saved_col {
 					col
 				} else {
-					let col = self.cursor_col();
+					let col = self.cursor_display_col();
 					self.saved_col = Some(col);
 					col
 				};
@@ -2821,7 +2830,7 @@ impl LineBuf {
 				let target_col = if let Some(col) = self.saved_col {
 					col
 				} else {
-					let col = self.cursor_col();
+					let col = self.cursor_display_col();
 					self.saved_col = Some(col);
 					col
 				};
@@ -3278,7 +3287,10 @@ impl LineBuf {
 					MotionKind::LineOffset(_) => self.range_from_motion(&motion).map(|(start,_)| start),
 					_ => None
 				};
-				let own_col = self.saved_col.unwrap_or(self.cursor.get().saturating_sub(self.start_of_line()));
+				let own_col = match self.saved_col {
+					Some(col) => col,
+					None => self.cursor_display_col()
+				};
 				let content = self.get_register_content(&verb, &motion);
 				register.write_to_register(content);
 				if let Some(SelectRange::TwoDim(sel)) = self.select_range.as_ref() {
@@ -3309,6 +3321,8 @@ impl LineBuf {
 								let pos = if self.is_selecting() { pos } else { own_col };
 								let (start,end) = self.this_line();
 								let last = if end > start && self.grapheme_at(end - 1) == Some("\n") { end - 1 } else { end };
+								let line = self.slice(start..end).unwrap_or_default().to_string();
+								let pos = if self.is_selecting() { pos } else { self.grapheme_index_for_display_col(&line, pos) };
 								self.cursor.set((start + pos).min(last.saturating_sub(1)).max(start));
 							}
 						MotionKind::LineOffset(_) if verb == Verb::Delete && !self.is_selecting() => {
@@ -3318,7 +3332,9 @@ impl LineBuf {
 							}
 							let (start,end) = self.this_line();
 							let last = if end > start && self.grapheme_at(end - 1) == Some("\n") { end - 1 } else { end };
-							self.cursor.set((start + own_col).min(last.saturating_sub(1)).max(start));
+							let line = self.slice(start..end).unwrap_or_default().to_string();
+							let pos = self.grapheme_index_for_display_col(&line, own_col);
+							self.cursor.set((start + pos).min(last.saturating_sub(1)).max(start));
 						}
 						MotionKind::LineOffset(_) if verb == Verb::Change && lines_start.is_some() => {
 							// 'cG', 'cgg': the lines are emptied and the typed text goes where they began
